@@ -1,6 +1,6 @@
 (* C03 — admin operations have exactly the requested effect, on the target only. *)
 From stdpp Require Import gmap.
-Require Import Model.Base Model.Validate Model.State Model.Staking Model.Slashing Model.Poa Model.App proofs.L1Effects proofs.InvHistory proofs.InvComet proofs.InvElig proofs.InvUpd proofs.InvFrame.
+Require Import Model.Base Model.Validate Model.State Model.Staking Model.Slashing Model.Poa Model.App proofs.L1Effects proofs.InvHistory proofs.InvComet proofs.InvElig proofs.InvUpd proofs.InvFrame proofs.InvReach.
 
 (* the target gets exactly the requested tokens/shares/self-delegation and one index entry at the new power;
    x/staking's last powers (what CometBFT holds) are left for its EndBlocker to update *)
@@ -125,3 +125,35 @@ Theorem C03_spared_validator_keeps_its_power : forall g bs bs2 id,
   last_pow (stk (w_chain w2)) !! id = last_pow (stk (w_chain w)) !! id \/
   (downed (stk (w_chain w)) (stk (w_chain w2)) id /\ last_pow (stk (w_chain w2)) !! id = None).
 Proof. exact spared_validator_keeps_its_power. Qed.
+
+(* a successful SetPower reaches the set, a successful RemoveValidator leaves it — at block level: the transaction [SetPower v P]
+   (resp. [RemoveValidator v]) passes somewhere in the block, no later message of the block names v; then v's last validator power
+   when the block ends — what CometBFT is told — is floor(P / 10^6) if v is not jailed at that point and max_validators does not bind
+   (resp. is gone, whatever max_validators is) *)
+Theorem C03_successful_setpower_reaches_the_next_set : forall g bs b txs1 s v P u txs2 cb ca',
+  wf_genesis g ->
+  let w := run_world (init_world g) bs in
+  let w' := fst (run_block w b) in
+  w_halted w = None -> w_halted w' = None ->
+  b_txs b = txs1 ++ [MSetPower s v P u] :: txs2 ->
+  begin_block (with_clock (w_chain w) (height (w_chain w) + 1) (now (w_chain w) + b_dt b))
+              (match c_prev (w_comet w) with Some vs => sorted_votes vs | None => [] end) (b_absent b) (b_evidence b) = inl cb ->
+  deliver_tx (fst (deliver_txs cb txs1)) [MSetPower s v P u] = (ca', TPass) ->
+  spares_txs v txs2 ->
+  (forall r, vals (stk (w_chain w')) !! v = Some r -> v_jailed r = false) ->
+  n_pos (pidx (stk (w_chain w'))) <= sp_max_validators (params (stk (w_chain w'))) ->
+  last_pow (stk (w_chain w')) !! v = Some (tokens_to_power (cast_i64 P)).
+Proof. exact setpower_reaches_the_set. Qed.
+
+Theorem C03_successful_removal_leaves_the_next_set : forall g bs b txs1 s v txs2 cb ca',
+  wf_genesis g ->
+  let w := run_world (init_world g) bs in
+  let w' := fst (run_block w b) in
+  w_halted w = None -> w_halted w' = None ->
+  b_txs b = txs1 ++ [MRemoveValidator s v] :: txs2 ->
+  begin_block (with_clock (w_chain w) (height (w_chain w) + 1) (now (w_chain w) + b_dt b))
+              (match c_prev (w_comet w) with Some vs => sorted_votes vs | None => [] end) (b_absent b) (b_evidence b) = inl cb ->
+  deliver_tx (fst (deliver_txs cb txs1)) [MRemoveValidator s v] = (ca', TPass) ->
+  spares_txs v txs2 ->
+  last_pow (stk (w_chain w')) !! v = None.
+Proof. exact remove_leaves_the_set. Qed.
